@@ -5,9 +5,15 @@ Systematic enumeration of the grid
   x kwargs   in {none, {}, payload}  x  the kind of Mapping the kwargs are handed over as
                in {dict, OrderedDict (a dict subclass), types.MappingProxyType, collections.UserDict}
   x batching in {not, row-major, column-major, fallback-per-row}
-  x action-set kind (12) x #actions in {1,2,3,4} x batch size in {1,2,3,4}   (incl. the square cases)
+  x action-set kind (13) x #actions in {1,2,3,4} x batch size in {1,2,3,4}   (incl. the square cases)
 Every grid cell is filled several times (seeded): context kind, PMF style, containers, kwargs payload kind,
 scripted indices / probabilities, follow-up calls (same layout, shorter last batch, other #actions).
+The action kinds include string sets in which a longer string is spelled with the offered one-character strings
+(its items are themselves -- by CPython's one-object-per-character -- offered actions).  For PMF learners a share
+of the fillings uses a *boundary seed*: the seed is chosen (by running the generator's recurrence backwards, and
+confirmed on the real CobaRandom) so that the uniform number behind the draw of one chosen row is a boundary value
+of [0,1): exactly 0.0, the largest value below 1, or a dyadic tie (1/4, 1/2, 3/4) -- placed, when there is one, on a
+row whose PMF has a zero weight at that boundary (first entry for 0.0, last entry for the largest value).
 
 A *scripted learner* answers every (context, actions) with the offered object at a scripted index in exactly one
 documented layout; the real SafeLearner is driven the way SequentialCB drives it (predict, then learn with what
@@ -27,10 +33,10 @@ from collections import Counter
 
 ID    = "C15"
 LEVEL = "exploration"
-RULE  = ("full enumeration of format(6) x kwargs(none | {empty,payload} x Mapping kind(dict,OrderedDict,MappingProxyType,UserDict)) x batching(not,row,col,fallback) x action kind(12) x #actions(1-4) "
+RULE  = ("full enumeration of format(6) x kwargs(none | {empty,payload} x Mapping kind(dict,OrderedDict,MappingProxyType,UserDict)) x batching(not,row,col,fallback) x action kind(13) x #actions(1-4) "
          "x batch size(1-4); every cell is filled with seeded context kinds, PMF styles, containers, payload kinds and "
          "follow-up calls; a case is distinct when (format, kwargs, kwargs Mapping kind, batching, kind, #actions, batch size, context kind, "
-         "pmf style, payload kind, container, fallback style, key length) differ; trivial = unbatched with 1 action or "
+         "pmf style, payload kind, container, fallback style, key length, boundary draw) differ; trivial = unbatched with 1 action or "
          "a cell outside the quantifier (bare dict action, value readable two ways)")
 PLAN  = {"quick":    {"shards": 16, "cases": 68000,  "timeout": 900,  "budget_s": 240},
          "thorough": {"shards": 16, "cases": 400000, "timeout": 3000, "budget_s": 1500}}
@@ -38,7 +44,9 @@ REQUIRED = ["oracle.action", "oracle.prob.stated", "oracle.prob.none-stated", "o
             "oracle.pmf.same-seed", "oracle.pmf.zero-never", "oracle.fallback.once-per-row", "oracle.fallback.same-effect",
             "grid.cells", "grid.square", "kwargs.as.dict", "kwargs.as.odict", "kwargs.as.proxy", "kwargs.as.userdict",
             "learner.batch-only", "oracle.kwargs.out.non-dict-mapping", "oracle.kwargs.learn.non-dict-mapping", "batching.not", "batching.row", "batching.col", "batching.fallback",
-            "oracle.pmf.frequency", "e2e.rows", "contract.predict.action_offered"]
+            "oracle.pmf.frequency", "e2e.rows", "contract.predict.action_offered",
+            "edge.draw.verified", "edge.draw.zero", "edge.draw.max", "edge.draw.tie", "oracle.pmf.zero-never.u=0-on-leading-zero-weight",
+            "oracle.pmf.zero-never.u=max-on-trailing-zero-weight", "oracle.action.str-spelled-with-offered-chars"]
 ASSUMPTIONS = [
     "learners answer consistently in one documented layout and return the offered objects themselves",
     "a bare dict is always read as a format hint, so sparse-dict actions are only asserted with the (action,prob), PMF and hinted formats",
@@ -56,20 +64,30 @@ ASSUMPTIONS = [
     "the kwargs part is a collections.abc.Mapping with str keys (coba.primitives.Kwargs = Mapping[str,Any]): a dict, a dict subclass "
     "(OrderedDict), a read-only types.MappingProxyType or a collections.UserDict; what the evaluator and learn receive is compared "
     "by content (keys and values), not by container type",
+    "boundary seeds rely on CobaRandom being the documented 30 bit LCG (a=116646453, c=9, m=2**30, u=state/m); every such seed is "
+    "confirmed by drawing from the real CobaRandom, an unconfirmed one is not counted (the run is then INCONCLUSIVE, not a violation); "
+    "at an exact tie between two positive-weight actions either of the two is accepted",
+    "a str answer is a bare action (a character is not a probability), also when its first character is itself an offered action",
 ]
 
 FORMATS  = ["action", "action_prob", "pmf", "h_action", "h_action_prob", "h_pmf"]
 KWMODES  = ["none", "empty", "payload"]
 KWCONTS  = ["dict", "odict", "proxy", "userdict"]     # how the learner hands its kwargs over: any Mapping is a kwargs mapping
 BATCHING = ["not", "row", "col", "fallback"]
-KINDS    = ["int01", "int", "floatp", "float01", "str1", "strn", "categorical", "onehot", "tuple2", "list", "dict", "mixed"]
+KINDS    = ["int01", "int", "floatp", "float01", "str1", "strn", "strsub", "categorical", "onehot", "tuple2", "list", "dict", "mixed"]
 SIZES    = [1, 2, 3, 4]
 CTXKINDS = ["none", "int", "str", "tuple", "dict", "float"]
 PMFSTYLE = ["float", "zeros", "onehot", "onehot-int", "uniform", "rounded"]
 PAYKINDS = ["scalar", "str", "list", "dict", "nonevalue", "multi"]
 CONTS    = ["list", "tuple"]
 FBSTYLES = ["raise", "none"]
-ACLASS   = {"int01": "num", "int": "num", "floatp": "num", "float01": "num", "str1": "str", "strn": "str",
+# the uniform number behind one PMF draw is put on a boundary of [0,1) / on a dyadic tie: name -> numerator of u over 2**30
+EDGES    = {"zero": 0, "max": 2**30 - 1, "half": 2**29, "quarter": 2**28, "three-quarters": 3 * 2**28}
+EDGEPICK = ["zero", "zero", "zero", "max", "max", "half", "quarter", "three-quarters"]
+# strings of several lengths where the longer ones are spelled with the offered one-character strings (keyed by klen)
+_STRSUB  = {1: ["u", "d", "ud", "du", "l", "lu"], 2: ["1", "2", "12", "21", "3", "31"],
+            3: ["n", "no", "o", "on", "non", "oo"], 4: ["a", "ab", "b", "ba", "abba", "bb"]}
+ACLASS   = {"int01": "num", "int": "num", "floatp": "num", "float01": "num", "str1": "str", "strn": "str", "strsub": "str",
             "categorical": "str", "onehot": "seq", "tuple2": "seq", "list": "seq", "dict": "dict", "mixed": "mixed"}
 
 class ContractBroken(AssertionError): pass
@@ -119,6 +137,7 @@ def make_actions(kind, n, v, klen=2):
     if kind == "float01": return _rot([0.0, 1.0, 0.5, 0.25], v)[:n]
     if kind == "str1":    return _rot(list("abcdef"), v)[:n]
     if kind == "strn":    return _rot(["".join(chr(97 + (i * klen + j) % 26) for j in range(klen)) for i in range(6)], v)[:n]
+    if kind == "strsub":  return _rot(list(_STRSUB[klen]), v)[:n]
     if kind == "categorical":
         from coba.primitives import Categorical
         levels = ["lo", "mid", "hi", "top", "x", "y"]
@@ -178,6 +197,24 @@ def make_pmf(style, ws):
     if style == "rounded":    return [round(w / tot, 4) + 0.0 for w in ws]   # a learner that rounds: sums to 1 within 2e-4 (coba documents 1e-3)
     return [w / tot for w in ws]                                   # fresh float objects, never identical to an action
 
+# ------------------------------------------------------------------------------------------ boundary seeds
+_LCG_A, _LCG_C, _LCG_M = 116646453, 9, 2**30       # CobaRandom's recurrence as documented in coba/random.py (confirmed per seed below)
+_LCG_AINV = pow(_LCG_A, -1, _LCG_M)
+
+def seed_for_draw(state, k):
+    """the seed whose k-th uniform (1-based) is state/2**30: the recurrence run backwards k times"""
+    for _ in range(k):
+        state = (_LCG_AINV * (state - _LCG_C)) % _LCG_M
+    return state
+
+def edge_confirmed(seed, k, edge):
+    """does the real generator, seeded with seed, produce the boundary value as its k-th uniform?"""
+    from coba.random import CobaRandom
+    try:
+        return CobaRandom(seed).randoms(k)[-1] == EDGES[edge] / _LCG_M
+    except Exception:
+        return False
+
 # ------------------------------------------------------------------------------------------ case generation
 def gen_case(params):
     """params -> self-contained spec (JSON-able).  Deterministic in params (incl. params['fill'])."""
@@ -228,6 +265,17 @@ def gen_case(params):
         calls.append(rows)
     p["calls"] = calls
     p["seed"] = rng.choice([0, 0, 1]) if rng.random() < .12 else rng.randint(0, 10**6)      # 0 is a legal seed (and falsy)
+    p.pop("edge_k", None)
+    if p.get("edge") and fmt in ("pmf", "h_pmf"):
+        # one uniform is consumed per predicted row, in order: put the boundary value behind the draw of one row -- one whose
+        # PMF has a zero weight at that boundary when there is such a row
+        flat = [r for rows in calls for r in rows]
+        if   p["edge"] == "zero": cand = [i for i, r in enumerate(flat) if r["w"][0] == 0]
+        elif p["edge"] == "max":  cand = [i for i, r in enumerate(flat) if r["w"][-1] == 0]
+        else:                     cand = [i for i, r in enumerate(flat) if r["n"] > 1]
+        k = rng.choice(cand or list(range(len(flat)))) + 1
+        p["edge_k"] = k
+        p["seed"]   = seed_for_draw(EDGES[p["edge"]], k)
     return p
 
 def fill_params(cell, rng):
@@ -235,6 +283,7 @@ def fill_params(cell, rng):
     return {"fmt": fmt, "kw": kw, "kwc": kwc, "batching": bat, "kind": kind, "n": n, "b": b,
             "ctx": rng.choice(CTXKINDS), "pmf": rng.choice(PMFSTYLE), "cont": rng.choice(CONTS), "klen": rng.choice(SIZES),
             "pay": rng.choice(PAYKINDS), "fb": rng.choice(FBSTYLES), "more": rng.random() < .7, "bonly": bat in ("row", "col") and rng.random() < .3, "ragged": rng.random() < .2, "same": rng.random() < .3,
+            "edge": (rng.choice(EDGEPICK) if rng.random() < .35 else None) if fmt in ("pmf", "h_pmf") else None,
             "fill": rng.randint(0, 10**9)}
 
 # ------------------------------------------------------------------------------------------ domain of the statement
@@ -423,6 +472,14 @@ def _evaluate(spec, note, freq=None):
         for r in rows:
             why = out_of_domain(spec, r, make_actions(spec["kind"], r["n"], r["v"], spec["klen"]), batched)
             if why: note("skipped." + why); return None
+    edge_row = None
+    if spec.get("edge") and spec.get("edge_k"):
+        if edge_confirmed(spec["seed"], spec["edge_k"], spec["edge"]):
+            note("edge.draw.verified")
+            note("edge.draw." + (spec["edge"] if spec["edge"] in ("zero", "max") else "tie"))
+            edge_row = [r for rows in spec["calls"] for r in rows][spec["edge_k"] - 1]["rid"]
+        else:
+            note("edge.draw.unconfirmed")       # the generator is not the documented LCG: nothing is claimed about this seed
     lrn, recs = _drive(spec, spec["seed"])
     per_row = []                     # (rid, action, prob, kwargs) as the evaluator received them
     for ci, rec in enumerate(recs):
@@ -462,6 +519,9 @@ def _evaluate(spec, note, freq=None):
             if is_pmf:
                 pmf = make_pmf(spec["pmf"], r["w"])
                 note("oracle.pmf.zero-never")
+                if r["rid"] == edge_row:
+                    if spec["edge"] == "zero" and pmf[0] == 0: note("oracle.pmf.zero-never.u=0-on-leading-zero-weight")
+                    if spec["edge"] == "max" and pmf[-1] == 0: note("oracle.pmf.zero-never.u=max-on-trailing-zero-weight")
                 if j is None:
                     return [("action-not-offered", f"{where} row {i}: {a!r} is not one of {acts!r}")]
                 if not pmf[j] > 0:
@@ -472,10 +532,13 @@ def _evaluate(spec, note, freq=None):
                 if not (isinstance(p, (int, float)) and p == pmf[j]):
                     return [("pmf-draw-inconsistent", f"{where} row {i}: drew {a!r} (index {j}) from {pmf!r} but probability {p!r} was reported")]
                 # (cases that share one of the few fixed small seeds draw the same uniforms: they are not independent samples)
-                if freq is not None and len(pmf) > 1 and spec["seed"] > 1:
+                if freq is not None and len(pmf) > 1 and spec["seed"] > 1 and not spec.get("edge"):
                     freq[0] += 1 if j == 0 else 0; freq[1] += pmf[0]; freq[2] += pmf[0] * (1 - pmf[0]); freq[3] += 1
             else:
                 note("oracle.action")
+                named = acts[r["idx"]]
+                if isinstance(named, str) and len(named) > 1 and any(isinstance(o, str) and o == named[0] for o in acts):
+                    note("oracle.action.str-spelled-with-offered-chars")
                 if j is None:
                     return [("action-not-offered", f"{where} row {i}: evaluator received {a!r}, offered {acts!r}; learner named {acts[r['idx']]!r}")]
                 if j != r["idx"]:
@@ -668,7 +731,7 @@ def _evaluate_e2e(spec, note):
     return []
 
 # ------------------------------------------------------------------------------------------ signatures
-NEUTRAL = [("ragged", False), ("same", False), ("kind", "str1"), ("klen", 2), ("ctx", "int"), ("pmf", "float"), ("cont", "list"), ("more", False), ("bonly", False), ("fb", "raise"),
+NEUTRAL = [("edge", None), ("ragged", False), ("same", False), ("kind", "str1"), ("klen", 2), ("ctx", "int"), ("pmf", "float"), ("cont", "list"), ("more", False), ("bonly", False), ("fb", "raise"),
            ("kw", "none"), ("kwc", "dict"), ("pay", "scalar"), ("n", 3), ("b", 2)]
 
 def _first(spec, e2e):
@@ -686,14 +749,26 @@ def signature(spec, mode, e2e=False):
         try: r = _first(gen_case(trial), e2e)
         except Exception: r = []
         return bool(r) and r[0][0] == mode
-    for key, neutral in NEUTRAL:
-        if cur.get(key, neutral) == neutral or (key == "b" and cur["batching"] == "not"): continue
-        if key == "kwc" and cur["kw"] == "none": cur["kwc"] = "dict"; continue
-        trial = dict(cur); trial[key] = neutral
-        if still(trial): cur = trial
-        elif key == "kw" and cur["kw"] == "empty":          # kwargs matter: is it their emptiness or their presence?
-            trial = dict(cur); trial["kw"] = "payload"; trial["pay"] = "scalar"
-            if still(trial): cur = trial
+    def refilled(trial):
+        """the neutralised case, or a refill of it (other scripted indices / weights / shapes), that still fails the same way:
+        a feature is only named when the violation does not come back without it"""
+        for df in range(12):
+            t = dict(trial); t["fill"] = trial["fill"] + df
+            if still(t): return t
+        return None
+    for _pass in range(3):          # a feature can become replaceable once a later one has been (one action -> three actions)
+        before = dict(cur)
+        for key, neutral in NEUTRAL:
+            if cur.get(key, neutral) == neutral or (key == "b" and cur["batching"] == "not"): continue
+            if key == "kwc" and cur["kw"] == "none": cur["kwc"] = "dict"; continue
+            trial = dict(cur); trial[key] = neutral
+            t = refilled(trial)
+            if t: cur = t
+            elif key == "kw" and cur["kw"] == "empty":          # kwargs matter: is it their emptiness or their presence?
+                trial = dict(cur); trial["kw"] = "payload"; trial["pay"] = "scalar"
+                t = refilled(trial)
+                if t: cur = t
+        if cur == before: break
     if cur["kw"] != "none" and cur.get("kwc", "dict") != "dict":
         # the kind of Mapping the kwargs come in is what matters: one mechanism, whose failure mode varies with the other
         # features.  Those are neutralised as long as the case keeps failing *because of* the Mapping kind (it does not fail
@@ -727,8 +802,11 @@ def signature(spec, mode, e2e=False):
     feats = []
     if cur["kind"] != "str1":   feats.append(f"actions={cur['kind']}")
     if cur["kind"] in ("list", "strn") and cur["klen"] != 2: feats.append(f"seq-len={cur['klen']}")
+    if cur["kind"] == "strsub" and cur["klen"] != 2: feats.append(f"alphabet={cur['klen']}")
     if cur["ctx"] != "int":     feats.append(f"context={cur['ctx']}")
     if cur["fmt"] in ("pmf", "h_pmf") and cur["pmf"] != "float": feats.append(f"pmf={cur['pmf']}")
+    if cur.get("edge") and cur["fmt"] in ("pmf", "h_pmf"):
+        feats.append("uniform-draw=" + {"zero": "0.0", "max": "largest-below-1"}.get(cur["edge"], "dyadic-tie"))
     if cur["cont"] != "list":   feats.append("tuple-containers")
     if cur["more"]:             feats.append("later-call")
     if cur.get("bonly"):        feats.append("batch-only-learner")
@@ -745,7 +823,7 @@ def signature(spec, mode, e2e=False):
 def case_key(spec):
     return (spec["fmt"], spec["kw"], spec.get("kwc", "dict") if spec["kw"] != "none" else "-", spec["batching"], spec["kind"], spec["n"], spec["b"], spec["ctx"],
             spec["pmf"] if "pmf" in spec["fmt"] else "-", spec["pay"] if spec["kw"] == "payload" else "-", spec["cont"],
-            spec["fb"] if spec["batching"] == "fallback" else "-", spec["klen"] if spec["kind"] in ("list", "strn") else "-", spec["more"], spec.get("bonly", False), spec.get("ragged", False), spec.get("same", False))
+            spec["fb"] if spec["batching"] == "fallback" else "-", spec["klen"] if spec["kind"] in ("list", "strn", "strsub") else "-", spec.get("edge") or "-", spec["more"], spec.get("bonly", False), spec.get("ragged", False), spec.get("same", False))
 
 def check_case(spec, ctx=None, freq=None, e2e=None):
     """returns [(sig, what)]"""
@@ -792,7 +870,7 @@ def run_shard(ctx):
             if cell[1] != "none": ctx.count("kwargs.as." + cell[6])
             if spec.get("bonly"): ctx.count("learner.batch-only")
             v = check_case(spec, ctx, freq, e2e=(rep % 2 == 0))
-            if done < 2: ctx.sample({k: spec[k] for k in ("fmt", "kw", "kwc", "batching", "kind", "n", "b", "ctx", "pmf", "cont", "pay")} | {"first_call": spec["calls"][0]})
+            if done < 2: ctx.sample({k: spec.get(k) for k in ("fmt", "kw", "kwc", "batching", "kind", "n", "b", "ctx", "pmf", "cont", "pay", "edge")} | {"first_call": spec["calls"][0]})
             for sig, what in v:
                 ctx.violation(sig, what, spec)
             done += 1
